@@ -5,9 +5,9 @@
     object is returned; with it the same object is updated."
    This file only states the theorems; proofs are in Proofs/LinComb.v, HomogR.v, HullR.v, TransformR.v,
    TransformR2.v (numeric part) and Proofs/StoreR.v (objects, copies, in-place updates). *)
-From Coq Require Import List Reals Lra Lia Arith Bool.
+From Coq Require Import List Reals Lra Lia Arith Bool QArith Qreals.
 From NV Require Import Scalar.Ops Model.Common Model.Basis Model.Knots Model.Eval Model.Homog Model.Hull Model.Transform
-  Proofs.BasisR Proofs.LinComb Proofs.HomogR Proofs.HullR Proofs.HullR2 Proofs.TransformR Proofs.TransformR2 Proofs.StoreR.
+  Proofs.BasisR Proofs.LinComb Proofs.HomogR Proofs.HullR Proofs.HullR2 Proofs.TransformR Proofs.TransformR2 Proofs.StoreR Transfer.BasisT Transfer.TransformT.
 Import ListNotations.
 Open Scope R_scope.
 
@@ -19,6 +19,14 @@ Theorem C10_eval_commutes_with_affine_curve : forall (dim : nat) (A : list (list
   curve_point Rops (length A) p U (map (aff A b) P) u = aff A b (curve_point Rops dim p U P u).
 Proof. intros dim A b p U P u Hb Hrows. apply curve_affine. apply matrix_affine; assumption. Qed.
 Print Assumptions C10_eval_commutes_with_affine_curve.
+
+(* [G] an instance about the EXECUTABLE rational model (what the correspondence check runs), by parametricity: translation *)
+Theorem C10_translate_curve_Q : forall dim p (U : list Q) (P : list (list Q)) (u : Q) (vec : list Q),
+  sortedQ U -> (p < length P)%nat -> (length P + p < length U)%nat -> Forall (fun q => length q = dim) P -> length vec = dim ->
+  (kn Qops U p <= u)%Q -> (u <= kn Qops U (length P))%Q -> (kn Qops U (length P - 1) < kn Qops U (length P))%Q ->
+  Forall2 Qeq (curve_point Qops dim p U (map (tr_point Qops vec) P) u) (tr_point Qops vec (curve_point Qops dim p U P u)).
+Proof. exact curve_translate_Q. Qed.
+Print Assumptions C10_translate_curve_Q.
 
 (* [G] the same for maps given component-wise by linear functionals (affine_map), surfaces and volumes *)
 Theorem C10_eval_commutes_with_affine_surface : forall (dim dim' : nat) (f : list R -> list R) pu pv su sv Uu Uv (P : list (list R)) u v,
@@ -89,14 +97,21 @@ Print Assumptions C10_scale.
    of the FIRST element and R the rotation matrix about the chosen axis as written in the code (c = cos, s = sin) *)
 Theorem C10_rotate : forall (dim axis : nat) (c s : R) (elems : list (shape R)) (prms : list (list R)) (out : list (shape R)),
   elems_ok dim elems prms -> (2 <= dim)%nat -> (dim = 2 \/ axis <= 2)%nat ->
+  (forall e0 rest, elems = e0 :: rest -> dirs_ok e0 (sh_start Rops e0)) ->
   rotate_elems Rops axis c s elems = Ok out ->
   exists e0 rest origin ax, elems = e0 :: rest /\ ax = (if Nat.eqb dim 2 then 2 else axis)%nat /\
-    sh_eval Rops e0 (sh_start Rops e0) = Ok origin /\
-    (length origin = dim ->
-     Forall2 (fun shp prm => sh_eval Rops (fst shp) prm =
+    sh_eval Rops e0 (sh_start Rops e0) = Ok origin /\ length origin = dim /\
+    Forall2 (fun shp prm => sh_eval Rops (fst shp) prm =
         res_map (fun x => tr_point Rops (back_origin Rops origin) (rot_axis Rops ax c s (tr_point Rops (neg_origin Rops origin) x))) (sh_eval Rops (snd shp) prm))
-       (combine out elems) prms).
-Proof. exact rotate_elems_spec. Qed.
+       (combine out elems) prms.
+Proof.
+  intros dim axis c s elems prms out Hok Hd Hax Hstart Hr.
+  destruct (rotate_elems_spec dim axis c s elems prms out Hok Hd Hax Hr) as [e0 [rest [origin [ax [E [Eax [Eo Hall]]]]]]].
+  assert (Hlen : length origin = dim).
+  { subst elems. inversion Hok as [|? prm0 ? ? [Hp0 _] _]; subst.
+    apply (sh_eval_length dim e0 (sh_start Rops e0) origin Hp0 (Hstart e0 rest eq_refl) Eo). }
+  exists e0, rest, origin, ax. repeat split; auto.
+Qed.
 Print Assumptions C10_rotate.
 
 (* the side condition "length origin = dim" of C10_rotate holds whenever the first element is well formed at its start parameters *)
